@@ -40,9 +40,16 @@ def main():
     # ---------------- 1. proofs --------------------------------------------------------------
     modules = spec["lean_modules"]
     gen_ok, gen_log = True, ""
-    if spec.get("gen"):
+    # the generated parts of the model are regenerated from /repo's CURRENT sources whenever a module of this property is built
+    # from them (directly or through an import), so that a table left behind by a run on other sources is never used
+    gens_needed = list(spec.get("gen") or [])
+    closure = hv.import_closure(modules + ["Driver.Main"])
+    for name, fname in (("grid", "GridTables.lean"), ("anchors", "Anchors.lean")):
+        if name not in gens_needed and any(f.endswith(os.path.join("Gen", fname)) for f in closure):
+            gens_needed.append(name)
+    if gens_needed:
         import gen_lean
-        gen_ok, gen_log = gen_lean.run(spec["gen"])
+        gen_ok, gen_log = gen_lean.run(gens_needed)
     ok_build, build_log = hv.lake_build(modules + ["hcmodel"])
     theorems, axioms = [], {}
     proof_ok = ok_build and gen_ok
